@@ -2416,6 +2416,8 @@ class FloorDivide(Pointwise):
             raise ValueError(f'All arguments must have the same dtype but got {dtype} and {self.divisor.dtype}.')
         if dtype == bool:
             raise ValueError(f'The boolean floor division is not supported.')
+        if dtype == complex:
+            raise ValueError(f'The complex floor division is not supported.')
         return dtype
 
     def _intbounds_impl(self):
